@@ -1,6 +1,7 @@
 package c03
 
 import (
+	"os"
 	"encoding/binary"
 	"encoding/json"
 	"math/rand"
@@ -17,6 +18,8 @@ import (
 // abstract datagram of spec/NtpAccept.tla
 type dgram struct {
 	Src     string `json:"src"`
+	Dst     string `json:"dst"`
+	L4      string `json:"l4"`
 	Len     string `json:"len"`
 	Li      int    `json:"li"`
 	Vn      int    `json:"vn"`
@@ -39,6 +42,7 @@ type c05rec struct {
 	Case int    `json:"case"`
 	Pos  int    `json:"pos"`
 	Il   bool   `json:"il"`   // the outstanding request really was interleaved
+	Tr   string `json:"tr"`
 	D    dgram  `json:"d"`
 	Want string `json:"want"` // reaction predicted by the specification ("" = not consumed there)
 	Got  string `json:"got"`  // ok | skip | error | ignored
@@ -127,12 +131,17 @@ func TestC05(t *testing.T) {
 	out := vio.Create(t)
 	defer out.Close()
 	rng := vio.Rand()
-	n, err := NewNet()
-	if err != nil {
-		t.Fatal(err)
+	nets := map[string]*Net{}
+	for _, k := range []string{"ip", "scion"} {
+		nn, err := NewNetFor(k)
+		if err != nil {
+			t.Fatal(err)
+		}
+		defer nn.Close()
+		nets[k] = nn
 	}
-	defer n.Close()
-	// second source address for src = "other"
+	var n *Net
+	// second source address for src = "other" (IP)
 	other, err := net.ListenUDP("udp", &net.UDPAddr{IP: net.ParseIP("127.0.0.2")})
 	if err != nil {
 		t.Fatal(err)
@@ -142,7 +151,11 @@ func TestC05(t *testing.T) {
 
 	serve := func(a Arrival, ex int) (*Handling, ntp.Packet) {
 		var req ntp.Packet
-		if err := ntp.DecodePacket(&req, a.B); err != nil {
+		pl, _, err := n.T.Unwrap(a.B)
+		if err != nil {
+			t.Fatal(err)
+		}
+		if err := ntp.DecodePacket(&req, pl); err != nil {
 			t.Fatal(err)
 		}
 		h, err := n.ServerRecv(ex, a.B, a.Src)
@@ -186,17 +199,31 @@ func TestC05(t *testing.T) {
 	nok, nil_ := 0, 0
 	for ci, c := range cases {
 		ds, want := c.queue(t)
+		kind := "ip"
+		if os.Getenv("VERIF_TRANSPORT") == "scion" || (os.Getenv("VERIF_TRANSPORT") == "" && ci%2 == 1) {
+			kind = "scion"
+		}
+		realisable := true
+		for _, d := range ds {
+			if kind == "ip" && (d.Dst != "client" || d.L4 != "udp") {
+				realisable = false // the kernel delivers only UDP datagrams addressed to the socket
+			}
+		}
+		if !realisable {
+			kind = "scion"
+		}
+		n = nets[kind]
 		// bring the client into the wanted mode
 		if c.Il {
-			for i := 0; i < 3 && !n.Client.InInterleavedMode(); i++ {
+			for i := 0; i < 3 && !n.T.InIL(); i++ {
 				n.StartMeasure()
 				finish()
 			}
-			if !n.Client.InInterleavedMode() {
+			if !n.T.InIL() {
 				t.Fatal("cannot bring the client into interleaved mode")
 			}
 		} else {
-			n.Client.ResetInterleavedMode()
+			n.T.ResetIL()
 		}
 		drain()
 		n.StartMeasure()
@@ -216,17 +243,39 @@ func TestC05(t *testing.T) {
 			if !pending {
 				break
 			}
-			b := concretise(d, h.Resp, &req, reqIl, stale, rng)
+			b := concretise(d, h.NTP, &req, reqIl, stale, rng)
 			for len(n.Logs) > 0 {
 				<-n.Logs
 			}
-			if d.Src == "other" {
-				other.WriteToUDPAddrPort(b, a.Src)
-			} else if _, err := n.Deliver(b, a.Src); err != nil {
-				t.Fatal(err)
+			if kind == "ip" {
+				if d.Src == "other" {
+					other.WriteToUDPAddrPort(b, a.Src)
+				} else if _, err := n.Deliver(b, a.Src); err != nil {
+					t.Fatal(err)
+				}
+			} else {
+				v := ""
+				switch {
+				case d.L4 == "scmp":
+					v = "scmp"
+				case d.Src == "other":
+					v = []string{"srcIA", "srcHost"}[rng.Intn(2)]
+				case d.Dst == "other":
+					v = []string{"dstIA", "dstHost"}[rng.Intn(2)]
+				}
+				fr := n.T.Wrap(b, h.Meta, v)
+				if d.Src == "other" && d.Dst == "other" {
+					// two framing deviations at once: source wrong, then the destination too
+					m2 := *h.Meta
+					m2.SrcHost = netip.MustParseAddr("127.0.0.8") // Wrap swaps: becomes the reply's destination
+					fr = n.T.Wrap(b, &m2, v)
+				}
+				if _, err := n.Deliver(fr, a.Src); err != nil {
+					t.Fatal(err)
+				}
 			}
 			got, _ := awaitReaction(n)
-			out.Emit(c05rec{Ev: "dgram", Case: ci, Pos: pos, Il: reqIl, D: d, Want: want[pos], Got: got})
+			out.Emit(c05rec{Ev: "dgram", Case: ci, Pos: pos, Il: reqIl, Tr: kind, D: d, Want: want[pos], Got: got})
 			if got == "ok" {
 				nok++
 			}
